@@ -64,6 +64,13 @@ def run(chk: Check):
     chk.tv("Trace_Proposals.tla", ktr, tag="kernel_infos", timeout=900,
            keyfn=lambda r: f"kernel:{r.trace['hdr']['kernel']}:{r.conjunct}",
            describe=lambda r: f"family {r.trace['hdr']['family']} step {r.trace['hdr']['step']}")
+    # mh_step through every model interface, eagerly, several steps on the same state object with different blocks
+    from harness import mhiface_driver as MI
+    itr = MI.traces([rng.randrange(1 << 30) for _ in range(6 if chk.quick else 120)], rng)
+    chk.tv("Trace_MHIface.tla", itr, tag="interfaces",
+           keyfn=lambda r: f"iface:{r.trace['hdr']['family']}:{r.conjunct}",
+           describe=lambda r: str(r.trace["ev"][r.line - 1])[:500])
+    chk.trusted += ["harness/mhiface_driver.py (closed-form float64 density of the three-field model)"]
     chk.assumptions += ["the uniform draw inside mh_step lies in [0,1) and is a function of the key only "
                         "(inferred per key as a hidden variable, never read)"]
 
